@@ -30,7 +30,7 @@ From BU Require Model.Ed25519Lib Model.EccAdapter Gen.Ecc.
 From BU Require Model.Bip32Slip10 Gen.DerivConsts.
 From BU Require Model.AddrUtils Model.AddrB58 Model.AddrText Model.SplToken Model.ElectrumWallet.
 From BU Require Lemmas.NoEscape Lemmas.NoEscapePaths Lemmas.NoEscapeMnem Lemmas.NoEscapeSer Lemmas.NoEscapeEcc
-                Lemmas.NoEscapeDeriv Lemmas.NoEscapeAddr.
+                Lemmas.NoEscapeDeriv Lemmas.NoEscapeAddr Lemmas.NoEscapeBech Model.Bech32.
 Import ListNotations.
 
 (* ================================================================== 1. text and wire codecs *)
@@ -552,6 +552,42 @@ Example codec_hypothesis_ex :
   atom_decode (fun _ _ => Err (LibError Bech32ChecksumError)) [99] [120] = Err ValueError.
 Proof. split; [reflexivity|vm_compute; reflexivity]. Qed.
 Print Assumptions codec_hypothesis_ex.
+
+(* ---- the same pipelines on the concrete codec models of Model/Bech32.v (property C10's models) ---- *)
+(* Bech32Decoder.Decode / SegwitBech32Decoder.Decode / BchBech32Decoder.Decode *)
+Theorem bech32_codecs_no_escape : forall hrp s,
+  in_family (Bech32.bech32_decode hrp s) = true /\ in_family (Bech32.segwit_decode hrp s) = true /\
+  in_family (Bech32.cash_decode hrp s) = true.
+Proof.
+  intros; repeat split; [apply NoEscapeBech.bech32_decode_family|apply NoEscapeBech.segwit_decode_family|
+                         apply NoEscapeBech.cash_decode_family].
+Qed.
+Print Assumptions bech32_codecs_no_escape.
+Theorem bech32_addr_decoders_concrete_no_escape : forall (keccak256 : list N -> list N) valid_pub,
+  (forall hrp addr, in_family (atom_decode Bech32.bech32_decode hrp addr) = true) /\
+  (forall prefix hrp addr, in_family (avax_decode Bech32.bech32_decode prefix hrp addr) = true) /\
+  (forall addr, in_family (egld_decode valid_pub Bech32.bech32_decode addr) = true) /\
+  (forall addr, in_family (inj_decode Bech32.bech32_decode addr) = true) /\
+  (forall hrp addr, in_family (ethb32_decode keccak256 Bech32.bech32_decode hrp addr) = true) /\
+  (forall addr, in_family (zil_decode Bech32.bech32_decode addr) = true).
+Proof.
+  intros k vp. exact (bech32_addr_decoders_no_escape k vp Bech32.bech32_decode NoEscapeBech.bech32_decode_family).
+Qed.
+Print Assumptions bech32_addr_decoders_concrete_no_escape.
+Theorem segwit_addr_decoders_concrete_no_escape :
+  (forall hrp addr, in_family (p2wpkh_decode Bech32.segwit_decode hrp addr) = true) /\
+  (forall hrp addr, in_family (p2tr_decode Bech32.segwit_decode hrp addr) = true).
+Proof. exact (segwit_addr_decoders_no_escape Bech32.segwit_decode NoEscapeBech.segwit_decode_family). Qed.
+Print Assumptions segwit_addr_decoders_concrete_no_escape.
+Theorem cashaddr_addr_decoders_concrete_no_escape : forall hrp nv addr,
+  in_family (bch_decode Bech32.cash_decode hrp nv addr) = true.
+Proof. exact (cashaddr_addr_decoders_no_escape Bech32.cash_decode NoEscapeBech.cash_decode_family). Qed.
+Print Assumptions cashaddr_addr_decoders_concrete_no_escape.
+(* Slip32KeyDeserializer.DeserializeKey on the concrete Bech32 decoder *)
+Theorem slip32_deserialize_concrete_no_escape : forall s v,
+  in_family (Slip32.slip32_deserialize Bech32.bech32_decode s v) = true.
+Proof. intros s v. exact (slip32_deserialize_no_escape Bech32.bech32_decode s v NoEscapeBech.bech32_decode_family). Qed.
+Print Assumptions slip32_deserialize_concrete_no_escape.
 
 (* ================================================================== 9. wallets built on the above *)
 (* SplToken.GetAssociatedTokenAddress(wallet str, mint str) over the SolAddrDecoder model *)
